@@ -308,26 +308,37 @@ func init() {
 				arg := w.expr(callArgs(mk)[0])
 				want := regexp.MustCompile(`^\w+\.LoadBlock\(` + regexp.QuoteMeta(pool) + `\.State\(\)\.LastBlockHeight\)\.Evidence\.Evidence$`)
 				c.Check(want.MatchString(arg), fk+" :: the evidence marked is that of the block at the pool's state height", w.ipos(mk), arg, "MarkCommitted is given "+arg)
-				// every exit that hands the pool out passes it, unless there is no such block
-				blocked := map[Edge]bool{}
-				for _, ea := range condEdges(f) {
-					if ea.A.Kind == "nil" && strings.Contains(w.atomStr(ea.A), ".LoadBlock(") {
-						blocked[ea.E] = true
-					}
+				// every exit that hands the pool out passes it, unless there is no such block — level by level
+				// when the reconciliation was carved out into a helper: inside the helper every return lies
+				// behind it, in the caller every hand-out lies behind the helper's call
+				chain := siteChain(f, mk)
+				if !c.Check(chain != nil, fk+" :: reconciliation reachable from the constructor", w.ipos(mk), "in the function or a helper of its own", "MarkCommitted is called from a function that is not part of the constructor") {
+					continue
 				}
-				for _, r := range returnsOf(f) {
-					ret := r.(*ssa.Return)
-					hands := false
-					for _, res := range ret.Results {
-						if w.expr(res) == pool {
-							hands = true
+				for _, ln := range chain {
+					g, kill := ln.fn, ln.at
+					blocked := map[Edge]bool{}
+					for _, ea := range condEdges(g) {
+						if ea.A.Kind == "nil" && strings.Contains(w.atomStr(ea.A), ".LoadBlock(") {
+							blocked[ea.E] = true
 						}
 					}
-					if !hands {
-						continue
+					for _, r := range returnsOf(g) {
+						ret := r.(*ssa.Return)
+						if g == f {
+							hands := false
+							for _, res := range ret.Results {
+								if w.expr(res) == pool {
+									hands = true
+								}
+							}
+							if !hands {
+								continue
+							}
+						}
+						reach, path := reachFromEntry(g, blocked, func(in ssa.Instruction) bool { return in == kill }, ret)
+						c.Check(!reach, funcKey(g)+" :: hand out the pool", w.ipos(ret), "behind the reconciliation", "the pool is returned on a path that skips MarkCommitted although the block exists: "+pathStr(w, path))
 					}
-					reach, path := reachFromEntry(f, blocked, func(in ssa.Instruction) bool { return in == ssa.Instruction(mk.(*ssa.Call)) }, ret)
-					c.Check(!reach, fk+" :: hand out the pool", w.ipos(ret), "behind the reconciliation", "the pool is returned on a path that skips MarkCommitted although the block exists: "+pathStr(w, path))
 				}
 			}
 		}
@@ -370,19 +381,34 @@ func init() {
 			n++
 			sum, prev := w.expr(acc.add), w.expr(acc.phi)
 			found := false
-			for _, b := range f.Blocks {
-				for _, in := range b.Instrs {
-					bo, ok := in.(*ssa.BinOp)
-					if !ok {
-						continue
-					}
-					x, y := w.expr(bo.X), w.expr(bo.Y)
-					if (bo.Op == token.LSS && x == sum && y == prev) || (bo.Op == token.GTR && x == prev && y == sum) {
-						if len(*bo.Referrers()) > 0 {
-							found = true
+			scan := func(g *ssa.Function, sub map[ssa.Value]string) {
+				for _, b := range g.Blocks {
+					for _, in := range b.Instrs {
+						bo, ok := in.(*ssa.BinOp)
+						if !ok {
+							continue
+						}
+						x, y := w.exprWith(bo.X, sub), w.exprWith(bo.Y, sub)
+						if (bo.Op == token.LSS && x == sum && y == prev) || (bo.Op == token.GTR && x == prev && y == sum) {
+							if len(*bo.Referrers()) > 0 {
+								found = true
+							}
 						}
 					}
 				}
+			}
+			scan(f, nil)
+			// the test may live in a predicate the loop calls with the total and the addend
+			for _, call := range rawCallInstrs(f) {
+				h := staticCallee(call)
+				if h == nil || h.Blocks == nil || pkgPathOf(h) != pkgPathOf(f) || len(call.Common().Args) != len(h.Params) {
+					continue
+				}
+				sub := map[ssa.Value]string{}
+				for i, p := range h.Params {
+					sub[p] = w.expr(call.Common().Args[i])
+				}
+				scan(h, sub)
 			}
 			c.Check(found, fk+" :: the gas total is tested for wrap-around", w.ipos(acc.add), "sum < previous total", "total + gasWanted is only compared with the limit: above MaxInt64/2 the sum of two admissible values wraps to a negative number and every transaction is reaped")
 		}
